@@ -246,6 +246,11 @@ pub fn check(case: &Case, obs: &Obs) -> CheckResult {
             (Some(p), Ok(())) => fail!("undefined-accepted", "message {mi} {txt:?}: succeeds although unit {p} designates no node"),
             (Some(p), Err(e)) => fail!("wrong-error", "message {mi} {txt:?}: unit {p} designates no node; error is {}, expected -113", e.get_code()),
         }
+        // the error hook sees exactly the returned error, once; never on success (C05 over generated trees)
+        match &res {
+            Ok(()) => ensure!(dev.errors.is_empty(), "hook-on-success", "message {mi} {txt:?}: the error hook was called for a successful message"),
+            Err(e) => ensure!(dev.errors.len() == 1 && dev.errors[0] == *e, "hook-mismatch", "message {mi} {txt:?}: run returned {e:?}, the error hook saw {:?}", dev.errors),
+        }
         prev_path = end_path;
     }
     obs.nontrivial_if(nontrivial, case);
